@@ -697,25 +697,51 @@ def scaledW (dim3 : Bool) (fV : V → V) (fN : N → N) (s : Mesh V N) : Mesh V 
            pn := if dim3 then s.pn.map (mapPN fN) else s.pn,
            qbvh := s.qbvh.map (·.map (mapTri fV)) }
 
-/-- `scaled` with `fixes/C11-scaled-pseudo-normals.diff`: cached pseudo-normals are recomputed from the scaled vertices
-(`none` = `compute_pseudo_normals` indexes out of bounds) -/
-def scaled [Geo V N] (dim3 : Bool) (fV : V → V) (s : Mesh V N) : Option (Mesh V N) :=
+/-- `scale.iter().filter(|s| **s < 0.0).count() % 2 == 1` is the argument `mirror` of `scaled` (computed from the scale
+vector by the caller: `mirrorOf`). -/
+def mirrorOf {K : Type} [Num K] (scale : List K) : Bool :=
+  (scale.filter fun x => decide (x < 0)).length % 2 == 1
+
+/-- the part of `scaled` after the vertices have been scaled and before `Qbvh::scaled`: the `reverse()` of commit
+1a6b99a (ORIENTED mesh, 3-D, mirroring scale), then the recomputation of the cached pseudo-normals -/
+def rewind [Geo V N] (dim3 mirror : Bool) (s : Mesh V N) : Option (Mesh V N) :=
+  if dim3 && s.flags.oriented && mirror then reverse dim3 s else some s
+
+def repn [Geo V N] (dim3 : Bool) (s : Mesh V N) : Option (Mesh V N) :=
+  if dim3 && s.pn.isSome then pnStep s else some s
+
+/-- `TriMesh::scaled` (current tree: `fixes/C11-scaled-pseudo-normals.diff` and commit 1a6b99a), in program order:
+1. every vertex is scaled (`fV`);
+2. 3-D, `ORIENTED`, odd number of negative factors (`mirror`): `self.reverse()` — the winding is flipped back so that it
+   is outward again (index buffer `[b, a, c]`, cached pseudo-normals negated with edge slots 1/2 exchanged, topology
+   recomputed when the flags keep one; the QBVH is not touched);
+3. 3-D: cached pseudo-normals are recomputed from the scaled vertices and the (possibly reversed) index buffer;
+4. `Qbvh::scaled(scale)`: every recorded triangle is mapped by `fV`.
+`none` = `compute_pseudo_normals` / `compute_topology` indexes out of bounds. -/
+def scaled [Geo V N] (dim3 mirror : Bool) (fV : V → V) (s : Mesh V N) : Option (Mesh V N) :=
+  let s1 : Mesh V N := { s with vertices := s.vertices.map fV }
+  ((rewind dim3 mirror s1).bind (repn dim3)).map fun s3 => { s3 with qbvh := s3.qbvh.map (·.map (mapTri fV)) }
+
+/-- `scaled` before commit 1a6b99a (index buffer always kept) = the non-mirroring / non-ORIENTED branch of `scaled`
+(`scaled_eq_keep`) -/
+def scaledKeep [Geo V N] (dim3 : Bool) (fV : V → V) (s : Mesh V N) : Option (Mesh V N) :=
   let s1 : Mesh V N := { s with vertices := s.vertices.map fV, qbvh := s.qbvh.map (·.map (mapTri fV)) }
   if dim3 && s1.pn.isSome then pnStep s1 else some s1
 
 /-- operations of a history, with `scaled` -/
 inductive Op2 (V N : Type) where
   | base (op : Op V N)
-  /-- `scaled`: `fV` = component-wise product with the scale; `fN` (as-written code only) = product + normalisation -/
-  | scale (fV : V → V) (fN : N → N)
+  /-- `scaled`: `fV` = component-wise product with the scale; `fN` (as-written code only) = product + normalisation;
+  `mirror` = the scale has an odd number of negative factors -/
+  | scale (fV : V → V) (fN : N → N) (mirror : Bool)
 
 def step2 [Geo V N] (dim3 : Bool) (s : Mesh V N) : Op2 V N → Option (Mesh V N)
   | .base op => step dim3 s op
-  | .scale fV _ => scaled dim3 fV s
+  | .scale fV _ mirror => scaled dim3 mirror fV s
 
 def stepW2 [Geo V N] (dim3 : Bool) (s : Mesh V N) : Op2 V N → Option (Mesh V N)
   | .base op => stepW dim3 s op
-  | .scale fV fN => some (scaledW dim3 fV fN s)
+  | .scale fV fN _ => some (scaledW dim3 fV fN s)
 
 /-! ### closed forms: `Triangle::local_aabb`, `Aabb::scaled`, `Aabb::merged` (boxes are `(mins, maxs)`) -/
 
